@@ -203,6 +203,7 @@ class Ruler(Generic[RuleFuncTv]):
         if isinstance(names, str):
             names = [names]
         result: list[str] = []
+        self.__cache__ = None
         for name in names:
             idx = self.__find__(name)
             if (idx < 0) and ignoreInvalid:
@@ -243,6 +244,7 @@ class Ruler(Generic[RuleFuncTv]):
         if isinstance(names, str):
             names = [names]
         result = []
+        self.__cache__ = None
         for name in names:
             idx = self.__find__(name)
             if (idx < 0) and ignoreInvalid:
